@@ -31,7 +31,7 @@ ASSUMPTIONS = ["backwards clock jumps are not injected (the property speaks of e
                "with a ticking clock the +-1us boundary classes are widened to +-16us and verdicts inside the band are withheld",
                "real-time cross-check is left to the repository's own three sleep-based tests"]
 FAULT_KINDS = ["preemption", "clock_gap_at_boundary", "clock_tick_between_reads", "expiry"]
-PROBES = ["two_sweeping_requests_together", "access_concurrent_with_sweep", "due_instance_accessed_during_a_sweep", "slow_release_of_expired_instances", "save_state_between_accesses", "created_via_start_instances", "expired_exactly_at_boundary", "alive_one_us_before_boundary", "restored_from_adapter",
+PROBES = ["batch_of_instances", "two_sweeping_requests_together", "access_concurrent_with_sweep", "due_instance_accessed_during_a_sweep", "slow_release_of_expired_instances", "save_state_between_accesses", "created_via_start_instances", "expired_exactly_at_boundary", "alive_one_us_before_boundary", "restored_from_adapter",
           "refused_after_expiry", "self_access_after_expiry_before_sweep", "swept_by_other_access",
           "swept_by_create", "swept_by_metrics", "keepalive_restore"]
 EXHAUSTIVE = {"quick": False, "thorough": False}
@@ -138,6 +138,13 @@ def generate(spec):
             last.append(now)
             events.append({"gap_us": gap, "op": "create", "timeout": to, "session": rng.random() < 0.85,
                            "via": rng.choice(["single", "single", "plural"])})
+            if events[-1]["via"] == "plural" and rng.random() < 0.3 and not cost:      # (a slow release of a whole batch would outlast the time-outs)
+                # a batch of instances from one request (a pool warmed up in advance): they all come due together
+                events[-1]["count"] = rng.choice([9, 12])
+                events[-1]["session"] = False
+                for _ in range(events[-1]["count"] - 1):
+                    insts.append(timeout_us(to))
+                    last.append(now)
         elif r < 0.30:
             events.append({"gap_us": gap, "op": rng.choice(["metrics", "full_metrics"])})
             if rng.random() < 0.15:
@@ -228,9 +235,12 @@ def execute(case):
             if op == "create":
                 if ev.get("via") == "plural":
                     res.probe("created_via_start_instances")
-                    r = w.post("/start-instances", {"timeout": ev["timeout"], "instances": 1})
+                    r = w.post("/start-instances", {"timeout": ev["timeout"], "instances": ev.get("count", 1)})
                     if r.status == 200 and isinstance(r.body, dict) and r.body.get("instance_uuids"):
                         r.body["instance_uuid"] = r.body["instance_uuids"][0]
+                        if ev.get("count", 1) > 1 and len(r.body["instance_uuids"]) != ev["count"]:
+                            res.violate("C17.A-create-refused", {"status": r.status, "asked": ev["count"], "got": len(r.body["instance_uuids"])})
+                            break
                 else:
                     r = w.post("/start-instance", {"timeout": ev["timeout"]})
                 t1 = clk.now_us
@@ -248,6 +258,18 @@ def execute(case):
                 age(t0, t1, skip=None, why="create")
                 insts.append(i)
                 resolve_serial(i)
+                for extra_id in (r.body.get("instance_uuids") or [])[1:]:
+                    x = _I()
+                    x.id = extra_id
+                    x.T = i.T
+                    x.lo, x.hi = t0, t1
+                    x.state = "alive"
+                    x.ext = False
+                    x.session = False
+                    x.stopped = False
+                    insts.append(x)
+                    resolve_serial(x)
+                    res.probe("batch_of_instances")
                 if ev.get("session"):
                     tb0 = clk.now_us
                     rb = w.post("/%s/begin-session" % i.id, BEGIN)
